@@ -32,7 +32,7 @@ FAULTS = ["-1", "-1'", "-0", "+5", " 5", "5 ", "1_0", "0x10", "1e3", "٣", "²",
           "abc", "m", "１'", "\t1"]
 
 
-def cases(rng, tier):
+def _cases_core(rng, tier):
     n_rand = 300 if tier == "quick" else 20000
     seen = set()
     for root in ("m", "M"):
@@ -191,3 +191,9 @@ def literal_ops(lit):
     for s in ("m/%d" % lit, "m/%d'" % lit, "m/0/%dh" % lit, "M/%d/1" % lit):
         yield "path_parse " + sx(s)
     yield "w_bypath xkey:%s %s" % (sx(XPRV), sx("m/%d" % lit))
+
+
+def cases(rng, tier):
+    from . import extra
+    yield from _cases_core(rng, tier)
+    yield from extra.cases_for('paths', rng, tier)
